@@ -168,6 +168,8 @@ def _rk_adaptive(fcn, ts, y0, params, cls, atol=1e-8, rtol=1e-5, **unused):
     rtol: float
         The relative error tolerance in deciding the steps
     """
+    if len(ts) == 1:
+        return y0.unsqueeze(0)  # a single time point: nothing to integrate
     solver = cls(atol=atol, rtol=rtol)
     solver.setup(fcn, ts, y0, params)
     return solver.solve()
